@@ -143,6 +143,8 @@ class Lit:
         # kind 'cmp': direction in which each cell moves the admit polynomial `big - small`.  Default: cells of `big` +1, cells of
         # `small` -1 ('locs' stands for travelled distances).  `signs` overrides single cells (divisors, flags, cells on both sides).
         self.signs = {}
+        # kind 'cmp': number of travelled legs (distance atoms) the reference inequality contains; None = not pinned
+        self.legs = None
 
     def expected_signs(self):
         exp = {k: {+1} for k in self.big}
